@@ -292,7 +292,7 @@ fn grid(level: u32) -> Vec<Case> {
     out.push(Case { text: "foo || 1.2.3".into(), rr: vec![npm_primitive("", &partials()[15])] });
     out.push(Case { text: "1.2.3 foo".into(), rr: vec![npm_primitive("", &partials()[15])] });
     // long lists whose LAST member decides (a cap on the number of comparators / alternatives widens or narrows the range)
-    for k in [12usize, 30, 70, 150] {
+    for k in [12usize, 30, 70, 150, 300, 700] {
         let ge = |a, b, c| Cmp { op: Op::Ge, k: k3(a, b, c) };
         let lt = |a, b, c| Cmp { op: Op::Lt, k: k3(a, b, c) };
         let mut cs: CSet = (0..k).map(|_| ge(0, 0, 1)).collect(); cs.push(ge(2, 0, 0));
@@ -419,7 +419,7 @@ fn gen_partial(r: &mut Rng) -> GenPartial {
     if r.chance(10) { text.push('v'); }
     let mut p = Partial { text: "", ma: None, mi: None, pa: None, pre: vec![] };
     match shape {
-        0 => { text.push_str(&wild(r)); }
+        0 => { if r.chance(30) { let tail = *r.pick(&[".x", ".x.x", ".*", ".*.*", ".1", ".1.2", ".x.3", ".0.0"]); text.push_str(&wild(r)); text.push_str(tail); } else { text.push_str(&wild(r)); } }
         1 => { text.push_str(&spell_num(r, ma)); p.ma = Some(ma); }
         2 => { text.push_str(&format!("{}.{}", spell_num(r, ma), wild(r))); p.ma = Some(ma); }
         3 => { text.push_str(&format!("{}.{}", spell_num(r, ma), spell_num(r, mi))); p.ma = Some(ma); p.mi = Some(mi); }
@@ -475,7 +475,7 @@ fn gen_alternative(r: &mut Rng) -> (String, Option<CSet>) {
         let (b1, b2) = (*r.pick(&[" ", " ", " ", " ", "  ", "\t", " \t", "   "]), *r.pick(&[" ", " ", " ", " ", "  ", "\t", "\t ", "   "]));
         return (format!("{}{}-{}{}", f.text, b1, b2, t.text), Some(npm_hyphen(&f.p, &t.p)));
     }
-    if r.chance(4) { return (r.pick(&["foo", "bar baz", "#", "a|b", "V1.2.3", ">=V1", "1.2.3.4", "^V2", "1.2.3.", "1..2", ">=1.2.3.4", "^1.2.3.4", "~1.2.3.4", ">=1.2.x.4", "1.2.3|x", ">=1.0.0|<2.0.0", "1.x|2.x"]).to_string(), None); }
+    if r.chance(4) { return (r.pick(&["foo", "bar baz", "#", "a|b", "V1.2.3", ">=V1", "1.2.3.4", "^V2", "1.2.3.", "1..2", ">=1.2.3.4", "^1.2.3.4", "~1.2.3.4", ">=1.2.x.4", "1.2.3|x", ">=1.0.0|<2.0.0", "1.x|2.x", "latest", "next", "stable", "canary", "nightly", "lts", "current", "beta", "any", "all", "none"]).to_string(), None); }
     if r.chance(3) { let g = gen_glued_garbage(r); return (g, None); }
     // the empty range is `*` (README grammar: range ::= ... | '')
     if r.chance(3) { return (r.pick(&["", "", " ", "   "]).to_string(), Some(any_set())); }
@@ -484,8 +484,9 @@ fn gen_alternative(r: &mut Rng) -> (String, Option<CSet>) {
     let mut cs: CSet = vec![];
     for i in 0..n {
         if i > 0 { text.push_str(*r.pick(&[" ", " ", " ", " ", " ", "  ", "    ", "\t", " \t "])); }
-        if r.chance(6) { text.push_str(*r.pick(&["foo ", "#1 ", "a|b ", "V1.2.3 ", ">=V1 ", "1.2.3.4 ", "~V1.2 ", ">=1.2.3.4 ", "^1.2.3.4 ", "1.2.3|x ", ">=1.0.0|<2.0.0 "])); }
+        if r.chance(6) { text.push_str(*r.pick(&["foo ", "#1 ", "a|b ", "V1.2.3 ", ">=V1 ", "1.2.3.4 ", "~V1.2 ", ">=1.2.3.4 ", "^1.2.3.4 ", "1.2.3|x ", ">=1.0.0|<2.0.0 ", "latest ", "next ", "stable ", "any "])); }
         if r.chance(2) { text.push_str(&gen_glued_garbage(r)); text.push(' '); }
+        if r.chance(1) { let n = 200 + r.below(500) as usize; text.push_str(&r.pick(&["z", "#", "1.2.3.4."]).repeat(n)); text.push(' '); }   // one long junk token; what follows still counts
         let s = gen_simple(r);
         text.push_str(&s.text);
         cs.extend(s.cs);
@@ -591,6 +592,10 @@ fn order_texts() -> Vec<String> {
         }
     }
     // many identifiers (a copy that keeps only the first few is not the same version)
+    // (one-letter identifiers: the whole text has to stay within MAX_LENGTH = 256)
+    let many = |n: usize, last: &str| format!("1.0.0-{}{}", vec!["a"; n].join("."), last);
+    for t in [many(16, ""), many(17, ""), many(32, ""), many(32, ".b"), many(33, ""), many(64, ""), many(65, ""), many(100, ""), many(100, ".0"), many(101, ""), many(120, ""), many(120, ".z")] { out.push(t); }
+    for t in ["1.0.0-rc9", "1.0.0-rc10", "1.0.0-a2", "1.0.0-a10", "1.0.0-x.9", "1.0.0-x.10", "1.0.0-9x", "1.0.0-10x"] { out.push(t.to_string()); }
     for t in ["1.0.0-a.b.c.d.e.f.g.h.i.j.k.l", "1.0.0-a.b.c.d.e.f.g.h.i.j.k", "1.0.0-a.b.c.d.e.f.g.h", "1.0.0-1.2.3.4.5.6.7.8.9.10.11.12.13.14.15.16.17+b.1.2.3.4.5.6.7.8.9.10"] { out.push(t.to_string()); }
     out
 }
@@ -699,7 +704,12 @@ fn op_ranges() -> Vec<Case> {
                          (">=1.0.0-Beta", Op::Ge, vec!["Beta"]), ("<=1.0.0-alpha", Op::Le, vec!["alpha"]), (">=1.0.0-alpha", Op::Ge, vec!["alpha"])] {
         out.push(Case { text: t.into(), rr: vec![vec![Cmp { op, k: kp(&pre) }]] });
     }
-    for t in [">=2.0.0 <1.0.0", "<1.0.0 >2.0.0"] { out.push(Case { text: t.into(), rr: vec![] }); }
+    for t in [">=2.0.0 <1.0.0", "<1.0.0 >2.0.0", "3.0.0 - 1.0.0", "2.x - 1.x"] { out.push(Case { text: t.into(), rr: vec![] }); }
+    // many alternatives, the last one the only one the version grid can see twice (a cap on the number of alternatives loses it)
+    {
+        let mut rr: RefRange = (0..70u64).map(|i| vec![Cmp { op: Op::Eq, k: k3(0, 9, i) }]).collect(); rr.push(vec![Cmp { op: Op::Eq, k: k3(5, 0, 0) }]);
+        out.push(Case { text: format!("{} || 5.0.0", (0..70).map(|i| format!("0.9.{}", i)).collect::<Vec<_>>().join(" || ")), rr });
+    }
     out.dedup_by(|a, b| a.text == b.text);
     out
 }
@@ -828,6 +838,25 @@ fn check_c11(seed: u64) {
             None => { if let Some(v) = vs.iter().find(|v| r.satisfies(v)) { fail("C11", "None => nothing satisfies", format!("range `{}`", c.text), format!("`{}` satisfies", v)); } }
         }
     }
+    // ranges produced by the set operations are ranges too (C11 quantifies over "every range"): complements and intersections of the grid
+    let all = rparse("*").unwrap();
+    let comp: Vec<Case> = grid(0).into_iter().take(420).collect();
+    for c in &comp {
+        let r = match rparse(&c.text) { Ok(r) => r, Err(_) => continue };
+        for (how, d) in [("`*` minus it", all.difference(&r)), ("`>=1.0.0 <3.0.0-0` and it", rparse(">=1.0.0 <3.0.0-0").unwrap().intersect(&r))] {
+            let d = match d { Some(d) => d, None => continue };
+            let res = catch_unwind(AssertUnwindSafe(|| d.min_version()));
+            let inp = format!("range `{}` ({}) = `{}`", c.text, how, d);
+            match res {
+                Err(_) => fail("C11", "min_version of a composed range panics", inp, String::new()),
+                Ok(Some(m)) => {
+                    if !d.satisfies(&m) { fail("C11", "min_version satisfies the (composed) range", inp.clone(), format!("min_version `{}`", m)); }
+                    if let Some(v) = vs.iter().find(|v| **v < m && d.satisfies(v)) { fail("C11", "no lower version satisfies the (composed) range", inp, format!("min_version `{}` but `{}` satisfies", m, v)); }
+                }
+                Ok(None) => if let Some(v) = vs.iter().find(|v| d.satisfies(v)) { fail("C11", "None => nothing satisfies the (composed) range", inp, format!("`{}` satisfies", v)); },
+            }
+        }
+    }
 }
 fn check_any(prop: &str) {
     // Range::any() is `*`: every release, no prerelease
@@ -843,6 +872,15 @@ fn check_c14(seed: u64) {
     let mut lists: Vec<Vec<Version>> = vec![vec![]];
     for a in &pool { lists.push(vec![a.clone()]); for b in &pool { lists.push(vec![a.clone(), b.clone()]); } }
     for a in pool.iter().take(7) { for b in pool.iter().take(7) { for c in pool.iter().take(7) { lists.push(vec![a.clone(), b.clone(), c.clone()]); } } }
+    // long lists in no particular order (a shortcut for "long lists arrive sorted" shows here), placed among the first lists tried
+    {
+        let big: Vec<Version> = versions().into_iter().step_by(3).collect();
+        let mut l1: Vec<Version> = big.iter().rev().cloned().collect(); l1.rotate_left(17);
+        let mut l2 = big.clone(); l2.rotate_left(40); l2.swap(0, 5); l2.swap(3, 60);
+        let l3: Vec<Version> = pool.iter().cycle().take(20).cloned().collect();
+        let l4: Vec<Version> = pool.iter().rev().cycle().take(33).cloned().collect();
+        for l in [l1, l2, l3, l4] { lists.insert(1, l); }
+    }
     let g = grid(0);
     let mut texts: Vec<String> = ["^2 || >=3", ">=1.2.3-beta", "1.2", "~1.2.3", "*", ">=1.0.0 <2.0.0", "<=1.0.0", "<2.0.0-rc.1", "1.2.3 || >4", "<=2.0.0-rc.1", "<1.2.3", ">=1.2.3 <2.0.0", "1.x", "1.2.3 - 2", ">1.0.0 <=1.2.3", "^1.2"].iter().map(|s| s.to_string()).collect();
     // comparator lists of three (a contradictory prefix followed by something else), every 7th of the grid
@@ -960,13 +998,14 @@ fn check_c06() {
     check_c06_growth();
     let mut texts: Vec<String> = grid(0).into_iter().map(|c| c.text).collect();
     texts.truncate(700);
-    for t in ["2.1 - 3.0 || <2.3.2 <1.0 =3.2.1-0", "=3.1.0-0", "<=1", "<=1.x", "<=1.*.*", "<=900719925474099", ">=900719925474099.900719925474099.900719925474099", "<1.0.0-alpha", ">=1.0.0-alpha || >1.0.0-alpha"] { texts.push(t.to_string()); }
+    for t in ["2.1 - 3.0 || <2.3.2 <1.0 =3.2.1-0", "=3.1.0-0", "<=1", "<=1.x", "<=1.*.*", "<=900719925474099", ">=900719925474099.900719925474099.900719925474099", "<1.0.0-alpha", ">=1.0.0-alpha || >1.0.0-alpha",
+              ">1.2.3 <2.0.0", ">=1.2.4-0 <1.5.0", "<1.2.4-0", ">1.2.3", ">=1.2.4-0", "<=1.2.3", ">1.2.3 <1.2.4", ">=1.2.3 <1.2.4-0", ">1.2.3-0 <1.2.3", "<1.2.3-0", ">=1.2.3-0", ">1.2.3-0", "1.2.3-0", ">0.0.0-0 <0.0.1-0"] { texts.push(t.to_string()); }
     let rs: Vec<(String, Range)> = texts.iter().filter_map(|t| catch_unwind(|| Range::parse(t)).unwrap_or_else(|_| fail("C06", "Range::parse panics", format!("`{}`", t), String::new())).ok().map(|r| (t.clone(), r))).collect();
     let vs = order_versions().into_iter().step_by(5).chain(versions().into_iter().step_by(3)).collect::<Vec<_>>();
     for a in &vs { for b in &vs {
         if catch_unwind(AssertUnwindSafe(|| { let _ = a.cmp(b); let _ = a == b; let _ = a.diff(b); })).is_err() { fail("C06", "Version operation panics", format!("`{}` vs `{}`", a, b), String::new()); }
     } }
-    let red: Vec<&(String, Range)> = rs.iter().step_by(7).collect();
+    let red: Vec<&(String, Range)> = rs.iter().step_by(7).chain(rs.iter().rev().take(26)).collect();
     for (ta, a) in &rs {
         let r = catch_unwind(AssertUnwindSafe(|| { let _ = a.to_string(); let m = a.min_version(); for v in vs.iter().take(40) { let _ = a.satisfies(v); } let _ = a.max_satisfying(&vs); let _ = a.min_satisfying(&vs); m }));
         if r.is_err() { fail("C06", "unary Range operation panics", format!("`{}`", ta), String::new()); }
